@@ -111,6 +111,58 @@ def run(ctx):
     from .c09 import _relabel
     _relabel(ctx, ('C09.5',), 'C13.3')
     delegation(ctx)
+    slice_none(ctx)
+
+
+def slice_none(ctx):
+    """C13.5: a slice component (start / stop / step of the subscript, or a local copied from one) that is absent is
+    None; 0 is a legitimate line number / ordinal.  Components must be compared with None, never tested for truth."""
+    P = ctx.P
+    ctx.rule('C13.5', 'slice components are compared with None, never tested for truth (0 is a legitimate bound)')
+    n = 0
+    classes = [P.cls('accessors.Accessor')] + P.cls('accessors.Accessor').all_subclasses() + [P.cls('accessors.SubvolumeAccessor')]
+    for c in classes:
+        for m in c.methods.values():
+            # expressions denoting a slice component: <param>.start/.stop/.step and locals assigned (only) from them
+            comp_txt = set()
+            for x in ast.walk(m.node):
+                if isinstance(x, ast.Attribute) and x.attr in ('start', 'stop', 'step') and isinstance(x.value, ast.Name) \
+                        and x.value.id in m.params:
+                    comp_txt.add(U(x))
+            if not comp_txt:
+                continue
+            for a in ast.walk(m.node):
+                if isinstance(a, ast.Assign):
+                    tg = a.targets[0]
+                    if isinstance(tg, ast.Tuple) and isinstance(a.value, ast.Tuple) and len(tg.elts) == len(a.value.elts):
+                        for t, v in zip(tg.elts, a.value.elts):
+                            if U(v) in comp_txt and isinstance(t, ast.Name):
+                                comp_txt.add(t.id)
+                    elif isinstance(tg, ast.Name) and (U(a.value) in comp_txt or (
+                            isinstance(a.value, ast.BoolOp) and U(a.value.values[0]) in comp_txt)):
+                        comp_txt.add(tg.id)
+            for x in ast.walk(m.node):
+                if not isinstance(x, (ast.Name, ast.Attribute)) or U(x) not in comp_txt or not isinstance(getattr(x, 'ctx', None), ast.Load):
+                    continue
+                pr = parent(x)
+                how = None
+                if isinstance(pr, (ast.If, ast.While, ast.IfExp, ast.Assert)) and pr.test is x:
+                    how = 'used as a condition'
+                elif isinstance(pr, ast.UnaryOp) and isinstance(pr.op, ast.Not):
+                    how = '`not %s`' % U(x)
+                elif isinstance(pr, ast.BoolOp) and pr.values[-1] is not x:
+                    how = '`%s %s ...`' % (U(x), 'or' if isinstance(pr.op, ast.Or) else 'and')
+                elif isinstance(pr, ast.Call) and U(pr.func) == 'bool':
+                    how = 'bool(%s)' % U(x)
+                n += 1
+                if how:
+                    ctx.fail('C13.5', m, enclosing_stmt(x), 'slice component `%s` is tested for truth (%s): an explicit bound of 0 '
+                             '(line number 0, ordinal 0) is taken for "not given" and replaced by the default' % (U(x), how),
+                             line=x.lineno, key_extra=U(x))
+            ctx.ok('C13.5', m, '%s.%s' % (c.name, m.name), 'slice components only compared with None / used as values',
+                   nontrivial=True)
+    if n < 6:
+        raise AnalysisError('accessors: fewer than 6 uses of slice components found (%d)' % n)
 
 
 def _ctor_name(v):
@@ -175,6 +227,11 @@ def slices(ctx):
         for a in stops:
             n += 1
             v = a.value
+            # `given or default` / `default if given is None else given`: the default is the part built on the last key
+            if isinstance(v, ast.BoolOp):
+                v = [x for x in v.values if 'keys_object[-1]' in U(x)][0]
+            if isinstance(v, ast.IfExp):
+                v = v.body if 'keys_object[-1]' in U(v.body) else v.orelse
             while isinstance(v, ast.Call) and U(v.func) == 'int' and v.args:
                 v = v.args[0]
             off = None
@@ -183,8 +240,8 @@ def slices(ctx):
                 lk = 'keys_object[-1]' in U(l)
                 off = r if lk else l
             if off is None:
-                ctx.fail('C13.2', gi, a, 'default stop `%s` is not <last key> + <offset>' % U(a.value))
-                continue
+                raise AnalysisError('%s: default stop `%s` follows no recognised idiom (<last key> + <offset>)' % (
+                    gi.qualname, U(a.value)[:60]))
             sp, sn = sign_of(off, 'step', True), sign_of(off, 'step', False)
             # the step must be defined before the stop on every path
             if sp == 1 and sn == -1:
